@@ -53,17 +53,17 @@ prop("C03", coq_deps=AUTHZ_DEPS,
      theorems=["C03_authority_phase_blind", "C03_blocks_independent", "C03_other_blocks_unaffected", "C03_block_facts_local",
                "C03_block_insert", "C03_state_blind", "C03_queries_blind", "C03_authority_visible"],
      trusted=AUTHZ_TRUSTED, assumptions=[])
-prop("C04", coq_deps=AUTHZ_DEPS + ["DatalogProofs.v"],
+prop("C04", coq_deps=AUTHZ_DEPS + ["DatalogProofs.v", "OrderProofs.v"],
      theorems=["C04_verdict_structure", "C04_success_iff", "C04_precedence", "C04_decision", "C04_first_match", "C04_no_match",
-               "C04_or_is_disjunction", "C04_run_error_wins"],
+               "C04_or_is_disjunction", "C04_run_error_wins", "C04_worlds_are_least_models", "C04_verdict_spec"],
      trusted=AUTHZ_TRUSTED, assumptions=["the scopes' worlds are the run results; that a run result is the least model is C05_least_model"])
 prop("C13", coq_deps=AUTHZ_DEPS,
      theorems=["C13_reset_fresh", "C13_rounds", "C13_rounds_outputs", "C13_history_cut", "C13_limits_invariant"],
      trusted=AUTHZ_TRUSTED, assumptions=["Reset is modelled as going back to the empty world carrying the configured limits (fix 829f55f)"])
 
-prop("C05", coq_deps=["Base.v", "Term.v", "Expr.v", "Datalog.v", "Corr.v", "DatalogProofs.v", "Generated.v"],
+prop("C05", coq_deps=["Base.v", "Term.v", "Expr.v", "Datalog.v", "Corr.v", "DatalogProofs.v", "Odometer.v", "OdometerProofs.v", "Generated.v"],
      theorems=["C05_run_sound", "C05_run_complete", "C05_least_model", "C05_derivable_is_least", "C05_query_exact",
-               "C05_query_sound", "C05_order_free", "C05_world_only_grows"],
+               "C05_query_sound", "C05_order_free", "C05_world_only_grows", "C05_odometer_refines"],
      trusted=["Go's regexp is not modelled (Section variable rx)",
               "the join enumeration is modelled declaratively (combos: lexicographic index tuples pruned by Match); the literal index "
               "machine of combine/advanceIndexes is tied by the ORDERED correspondence (World.Facts() and QueryRule results compared as "
@@ -95,3 +95,24 @@ prop("C17", coq_deps=CHAIN_DEPS,
      theorems=["C17_one_per_block", "C17_is_signature", "C17_prefix_append", "C17_prefix_seal", "C17_unique_signing_events",
                "C17_new_id_shape"],
      trusted=CHAIN_TRUSTED, assumptions=["fresh randomness: distinct signing events draw distinct 32-byte seeds; pub and sign are collision-free"])
+
+prop("C12", coq_deps=AUTHZ_DEPS + ["DatalogProofs.v", "OrderProofs.v"],
+     theorems=["C12_permutation", "C12_alpha", "C12_duplicate", "C12_duplicate_in_block", "C12_repeat"],
+     trusted=AUTHZ_TRUSTED,
+     assumptions=["fragment: set-free facts and rule heads, error-free queries (queries_ef), runs within limits (runs_ok); "
+                  "the policy list order is significant and not permuted; renaming acts on top-level variables"])
+prop("C11", coq_deps=AUTHZ_DEPS + ["DatalogProofs.v", "ChanLTS.v", "ChanLTSProofs.v"],
+     theorems=["C11_ok_is_fixpoint", "C11_max_facts_error", "C11_max_iterations_error", "C11_error_cases",
+               "C11_authorize_fails_on_limit", "C11_limits_survive", "C11_no_stranded", "C11_no_blocked_forever",
+               "C11_no_infinite_run", "C11_old_protocol_strands"],
+     level_text="PARTIAL proof: limits / no silent truncation / authorization fails on a limit are theorems about the Datalog and "
+                "authorizer models; 'no stranded goroutine' is a theorem about a transition system of the Run/Apply/combine channel "
+                "protocol for arbitrarily many rule applications and combinations under every schedule; that the options reach the "
+                "worlds through both entry points, the wall-clock timeout and the runtime's goroutine reclamation are exercised by "
+                "the harness (limits-in-force accessor, goroutine census, timeout ordering), not proved",
+     trusted=AUTHZ_TRUSTED + ["ChanLTS.v is a hand-written abstraction of the synchronisation skeleton of datalog.go (buffered done, ctx, "
+                               "unbuffered combination channel, stop channel); data is abstracted to counters and nondeterministic choice; "
+                               "it is tied to the code by the goroutine census of the harness, not by a translator",
+                               "Go scheduler, context timers and goroutine reclamation are outside the model (runtime remainder)"],
+     assumptions=["no program of this Datalog dialect diverges (heads only take body-bound variables): limits cut large finite models"],
+     harness_timeout=900)
